@@ -66,7 +66,9 @@ func c04Verdict(c *Ctx, in *c17Inst, exp c17Val, dev map[string]c17Val, got []by
 
 // C04: JSON written by -o and json() is valid and equal to the value it represents.
 func checkC04(c *Ctx) {
-	c.Assume("string and number contents are opaque atoms instantiated per seed: strings with quotes, backslashes, control characters, U+2028/2029, multi-byte and astral characters (supplied through the input document, jqawk literals cannot express them); doubles from the special pool (2^53 and neighbours, 1e21, 1e-7, 5e-324, max double, -0) and random bit patterns; 'every string escape, every finite double' is decided by this instantiation only")
+	c.Assume("in the heap and document families string and number contents are opaque atoms instantiated per seed (strings with quotes, backslashes, control characters, U+2028/2029, multi-byte and astral characters, supplied through the input document; doubles from the special pool and random bit patterns). 'All string escapes' is modelled by JqJsonText: 16 classes of code points with the same JSON treatment, every string of <= 2 (thorough 3) classes at every position and entry point; a one-code-point string is replayed with every listed member of its class (all 32 C0 controls, DEL, all C1 controls, ...), longer ones and the large classes with seeded members. 'Every finite double' is 9 classes of doubles (zero, -0, integers, fractions, >= 1e17, <= 1e-5, subnormals, the largest, around 2^53) plus random bit patterns, by instantiation only")
+	c.Assume("nesting: the model has no depth limit; the implementation's reader (encoding/json) reads documents of at most 10000 nested containers. Chains are replayed at the model's depth (<= 5 / 6), stretched to a seeded depth in the hundreds (thorough: thousands), and at 9999, 10000 and 10001 levels; a value of more than 10000 levels (only constructible by a program, no readable document is that deep) may be written or refused, never written wrongly")
+	c.Assume("which of the valid JSON spellings of a code point is used (raw, two-character escape, \\uXXXX, surrogate pair) is not compared; lone surrogates and raw invalid UTF-8 in the output are rejected")
 	c.Assume("numbers are compared with == after encoding/json parsing (the statement says equal; -0 and 0 are equal)")
 	c.Assume("object key order and whitespace of the written JSON are not compared (parsed values are)")
 	c.Assume("non-JSON leaves are instantiated as +Inf, -Inf, NaN (stored in containers) and functions (only as the direct argument of json(): the implementation cannot store a function in a container); regex leaves and unset variables are left open")
@@ -77,8 +79,11 @@ func checkC04(c *Ctx) {
 	var nKnown, nErrExp, nInconclusive int64
 	knownWitness := ""
 
+	var vmu sync.Mutex // the verdict sinks are shared by the streams of this file and the background runs of c04b.go
 	report := func(name string, rep map[string]any) { c.Violation(name, rep) }
 	settle := func(fam, key string, verdict, why string, rep func() map[string]any, nontrivial bool) {
+		vmu.Lock()
+		defer vmu.Unlock()
 		switch verdict {
 		case "ok":
 			c.Case(key, nontrivial)
@@ -294,6 +299,12 @@ func checkC04(c *Ctx) {
 		}})
 	std.Wait()
 
+	// ---- (iii) leaves x positions x entry points, (iv) chains up to the reader's nesting limit (c04b.go);
+	// the runs at the limit continue in the background until waitPart2
+	waitPart2 := c04Part2(c, pool, settle, report, func(prog, doc []byte, sels []string, exp c17Val, in *c17Inst, tag, fam string) {
+		binCases = append(binCases, binCase{prog: prog, doc: doc, sels: sels, exp: exp, in: in, tag: tag, fam: fam})
+	})
+
 	// ---- heaps of 4..40 containers, oracle = TLC (Trace_Render): json(c1)
 	{
 		nMed := 150
@@ -455,6 +466,7 @@ func checkC04(c *Ctx) {
 		c.Set("binary_runs", nbin)
 	}
 
+	waitPart2()
 	if nKnown > 0 {
 		c.Known(c04Dev, fmt.Sprintf("an empty array anywhere in the value is written as null by -o and json() (%d cases, first in family %s; witness: `echo '{\"a\":[]}' | jqawk -o - '{}'` writes {\"a\": null})", nKnown, knownWitness))
 	}
@@ -462,9 +474,11 @@ func checkC04(c *Ctx) {
 	c.Set("cases_explained_by_empty_array_null", nKnown)
 	c.Set("cases_expecting_an_error", nErrExp)
 	c.Set("inconclusive_non_finite_guard", nInconclusive)
+	c.Set("rule_part2", "MC_JsonLeaf: every string of <= MaxLen code point classes (JqJsonText), every number class and true/false/null x {the value itself, array element, object value, object key, two levels down} x {json() of a program-built value, json($), json(<path>), -o after $ = v, -o of the unmodified document, -o with a selector}: the text must be accepted by a strict RFC 8259 reader whose escape table is cross-checked against JqJsonText.Allowed and by encoding/json, and equal the value. "+
+		"MC_RenderDeep: chains of d <= Limit+1 containers (kind patterns of period <= MaxPeriod, empty / scalar innermost, sibling scalars before / after, as document, as program-built heap, and closed into a cycle at every level), replayed at depth d, stretched to hundreds of levels and to the implementation's reader limit -1, +0, +1 through json(), GetRootJson and the binary's -o FILE: acyclic => the same value, cycle => error; non-trivial: every case but the words true/false/null and chains of one container")
 	c.Set("rule", "TLC enumerates every heap of <= 3 containers x <= 2 slots x {atom classes incl. a non-JSON leaf, reference} up to renaming and every JSON document tree of depth <= 3 (every empty/non-empty combination); "+
 		"heaps are built by assignment-only programs and converted by json() and by GetRootJson after `$ = c1`, documents pass through programs that do not modify them (library GetRootJson, json($), -r selectors, and the binary's -o -/-o FILE on a seeded sample); "+
 		"the output must parse to the model's tree (or be an error exactly when the model says so); a case is non-trivial when the heap has more than one container / the document is a container; distinct by (family, vector)")
-	c.Set("checker_cmd", "tlc MC_Render (Laws, VecJson) / MC_RenderDoc (Laws, Vec); replay through lang.EvalProgram + Evaluator.GetRootJson in worker processes and the jqawk binary")
+	c.Set("checker_cmd", "tlc MC_Render (Laws, VecJson) / MC_RenderDoc (Laws, Vec) / MC_JsonLeaf (Laws, Vec) / MC_RenderDeep (Laws, Vec); replay through lang.EvalProgram + Evaluator.GetRootJson in worker processes and the jqawk binary")
 	c.Set("bounds", map[string]any{"MaxC": 3, "MaxS": 2, "Classes": classes, "DocWidth": []int{2, 2, w3}})
 }
